@@ -42,8 +42,9 @@ func init() {
 			"Request side also: octet-stream bodies handed over as io.ReadCloser, multipart operations called without their (optional) file or with two file parameters, a file sent although the first consumes entry is urlencoded, empty items in multi arrays, DELETE with a JSON body, path values spelling another parameter's placeholder, file names holding tab, no-break/zero-width spaces, U+2028, U+FEFF, quotes, backslashes and bytes that are not UTF-8, header and form parameters left out in 1 call in 5. " +
 			"Response side: the handler answers through a Responder with a status in {declared success code, 200,201,202,204,300,304,400,401,403,404,409,422,429,500,503}, an echo header, a two-valued header, optionally an explicit Content-Type (parameters, upper case), and a json/text/octet-stream body of 0 bytes..1 MiB, optionally flushing the head and writing the body only once the caller's reader has been entered (a logical event, no timing); or returns an error carrying a 4xx/5xx code (status judged only). " +
 			"Round 3: query and form parameter names that need escaping ($filter, page[size], 'a b', ...); values ending in a space, a reserved byte or a line break; templates and a base path ending in '/', literal segments with reserved bytes; static query parameters written into the operation's path pattern or into the transport's base path, each such call followed by a call (1 in 2 on a new Runtime) to an operation declaring the name whose caller leaves it out (it must receive none); readers that hand the live body to the consumer; answers labelled with a media type the client has no consumer for (the call must fail naming the content type without entering the reader, as C13 states; with a catch-all consumer the answer must arrive intact); values that cannot be sent (unmarshallable body, media type without producer, a directory as upload: the call fails and no handler runs; a stream whose Close fails). " +
-		"Every call runs on a transport of its case; a dial/reset/deadline/closed-connection error of the loopback plumbing is counted (env:*), the call is repeated once on a fresh server and only what shows again is judged; running out of descriptors/ports is never judged. " +
-		"Oracle: equality of every received value with the supplied one (a declared query/header/form parameter the call left out must arrive as the zero value), of the operation that ran, and of status/headers/body seen by the response reader with what the handler wrote (body read to EOF without error; status and headers only for HEAD operations). non-trivial = a call with >= 1 value containing a byte that needs escaping in its location; distinct by (operation shape, value tuple)",
+			"Round 4: empty values at every count (a scalar query/form value that is the empty text; multi arrays of one empty item [\"\"], of several empty items; some multi arrays declare a default); descriptions that spell a produces entry with upper-case letters and/or a parameter (Text/Plain, application/JSON; charset=utf-8, a blank before the ';'), the client listing the types as the description spells them (consumes entries spelled that way too: the client used to refuse them with 'none of producers registered', repaired by bbaab0a and pinned). Lists are compared item by item (a list of one empty item is not the empty list). " +
+			"Every call runs on a transport of its case; a dial/reset/deadline/closed-connection error of the loopback plumbing is counted (env:*), the call is repeated once on a fresh server and only what shows again is judged; running out of descriptors/ports is never judged. " +
+			"Oracle: equality of every received value with the supplied one (a declared query/header/form parameter the call left out must arrive as the zero value, or as the default its declaration has), of the operation that ran, and of status/headers/body seen by the response reader with what the handler wrote (body read to EOF without error; status and headers only for HEAD operations). non-trivial = a call with >= 1 value containing a byte that needs escaping in its location; distinct by (operation shape, value tuple)",
 		Assumptions: []string{
 			"path values that are empty or dot segments are not generated (outside the guarantee: paths are normalised by design)",
 			"header values are restricted to what HTTP can carry (no CR/LF/NUL/other controls, no leading/trailing whitespace)",
@@ -51,9 +52,12 @@ func init() {
 			"the Content-Type of a 304 answer is not judged (net/http strips it); a 304 answer carries no body",
 			"octet-stream request bodies have >= 1 byte (an empty stream is indistinguishable from an absent body); a 204 answer carries no body (HTTP)",
 			"a query parameter the caller does not set has the value written into the path pattern, else the one written into the base path; when both carry it either value is accepted (the statement does not rank the two); a value the caller sets wins over both",
-		"literal template segments hold only bytes a URL path carries unescaped (space, non-ASCII, '|', '\"' in a literal are not generated: no still-encoded request path spells such a literal, see escapedLiteralTemplates) and neither ':' nor '*' (router meta bytes: C01/C05)",
-		"an answer labelled with a media type the client has no consumer for, and no catch-all consumer: the call fails with an error naming the content type and the reader is not entered (stated by C13; ruled not a C04 defect)",
-		"when the handler returns an error value only the status reaching the reader is judged (the error document is written by the API's error responder: C08); the Content-Type seen by the reader is judged only when the handler set it itself (otherwise it is the negotiated one: C07/C08)",
+			"literal template segments hold only bytes a URL path carries unescaped (space, non-ASCII, '|', '\"' in a literal are not generated: no still-encoded request path spells such a literal, see escapedLiteralTemplates) and neither ':' nor '*' (router meta bytes: C01/C05)",
+			"an answer labelled with a media type the client has no consumer for, and no catch-all consumer: the call fails with an error naming the content type and the reader is not entered (stated by C13; ruled not a C04 defect)",
+			"a parameter the caller leaves out whose declaration has a default may arrive as that default or as the zero value (the statement speaks of supplied values only); nothing else may arrive",
+			"a multi array supplied as empty items only ([\"\"], [\"\", \"\"]) to a parameter that declares a default: the supplied list and the declared default are both accepted (class either:*): the statement is silent on defaults and C03 reads an empty parameter as its default; without a declared default the supplied list is due",
+			"scalar parameters with a default, required arrays and the non-multi collection formats in query/form are not generated (an empty scalar stands for its default, an empty required value is refused, \"\" splits into no items: C03's ground, the statement of C04 does not rank these against 'equal to the ones supplied')",
+			"when the handler returns an error value only the status reaching the reader is judged (the error document is written by the API's error responder: C08); the Content-Type seen by the reader is judged only when the handler set it itself (otherwise it is the negotiated one: C07/C08)",
 		},
 		MinNontrivial: 200,
 		Run:           run,
@@ -167,8 +171,19 @@ func respFiller(n int, binary bool) string {
 	return string(b)
 }
 
-func producesOctet(op *gen.Op) bool { return len(op.Produces) > 0 && op.Produces[0] == octetMime }
-func producesText(op *gen.Op) bool  { return len(op.Produces) > 0 && op.Produces[0] == "text/plain" }
+// The description may spell a media type with upper-case letters, with parameters, with blanks around the ';': which type it is
+// is decided on the bare type in lower case (mediaTypeOf).
+func producesOctet(op *gen.Op) bool {
+	return len(op.Produces) > 0 && mediaTypeOf(op.Produces[0]) == octetMime
+}
+func producesText(op *gen.Op) bool {
+	return len(op.Produces) > 0 && mediaTypeOf(op.Produces[0]) == "text/plain"
+}
+
+// consumesIs: the i-th consumes entry of the operation is the given media type, however the description spells it.
+func consumesIs(op *gen.Op, i int, mt string) bool {
+	return len(op.Consumes) > i && mediaTypeOf(op.Consumes[i]) == mt
+}
 
 // respBody is what the handler writes for the call.
 func respBody(call *Call, op *gen.Op) string {
@@ -733,7 +748,7 @@ func runCase(m *mon.M, c *Case) {
 				m.Class("resp:" + f)
 			}
 		}
-		if (call.File != "" || call.File2 != "") && len(op.Consumes) > 0 && op.Consumes[0] == "application/x-www-form-urlencoded" {
+		if (call.File != "" || call.File2 != "") && consumesIs(op, 0, "application/x-www-form-urlencoded") {
 			// one input class of its own (known finding, shared with C11): the client labels the multipart
 			// document it sends "application/x-www-form-urlencoded; boundary=..." when that type is listed first
 			feat = "file-sent-while-urlencoded-is-listed-first"
@@ -744,9 +759,15 @@ func runCase(m *mon.M, c *Case) {
 		}
 		for _, f := range strings.Split(strings.SplitN(feat, "|", 2)[0], "+") {
 			switch f {
-			case "pattern-query", "base-path-query", "after-pattern-query", "parameter-name-needs-escaping", "slash-at-the-end-of-template-or-base-path", "literal-needs-escaping":
+			case "pattern-query", "base-path-query", "after-pattern-query", "parameter-name-needs-escaping", "slash-at-the-end-of-template-or-base-path", "literal-needs-escaping",
+				"array-of-one-empty-item", "array-of-empty-items", "empty-value",
+				"produces-spelled-with-upper-case", "produces-spelled-with-parameter", "produces-spelled-with-upper-case-and-parameter",
+				"consumes-spelled-with-upper-case", "consumes-spelled-with-parameter", "consumes-spelled-with-upper-case-and-parameter":
 				m.Class("shape:" + f)
 			}
+		}
+		if eitherDefault(call, op) {
+			m.Class("either:empty-items-only-for-an-array-with-declared-default") // supplied list or declared default, see eitherDefault
 		}
 		if call.FreshRuntime {
 			m.Class("shape:fresh-runtime")
@@ -964,6 +985,13 @@ func unsupplied(c *Case, call *Call, op *gen.Op, got *received) string {
 			continue
 		}
 		if !supplied && !isZeroValue(got.bound[p.Name]) {
+			// a parameter the caller leaves out may arrive as the default the description declares for it (the statement
+			// speaks of supplied values only; nothing but the zero value or the declared default may arrive)
+			if def, ok := declaredDefault(&p); ok {
+				if g, isList := got.bound[p.Name].([]string); isList && sameItems(g, def) {
+					continue
+				}
+			}
 			return "unsupplied-" + p.In
 		}
 	}
@@ -987,6 +1015,153 @@ func wantQuery(c *Case, call *Call) map[string][][]mon.Q {
 	return w
 }
 
+// sameItems: the received list has the supplied items, as many and in the order supplied (a list of one empty item is not the
+// empty list).
+func sameItems(g []string, v []mon.Q) bool {
+	if len(g) != len(v) {
+		return false
+	}
+	for i := range g {
+		if g[i] != string(v[i]) {
+			return false
+		}
+	}
+	return true
+}
+
+// declaredDefault gives the items of the default the description declares for an array parameter.
+func declaredDefault(p *gen.Param) ([]mon.Q, bool) {
+	if p == nil || p.Type != "array" || p.Default == nil {
+		return nil, false
+	}
+	var out []mon.Q
+	switch l := p.Default.(type) {
+	case []interface{}: // as generated, and as read back from a replay file
+		for _, it := range l {
+			out = append(out, mon.Q(fmt.Sprint(it)))
+		}
+	case []string:
+		for _, it := range l {
+			out = append(out, mon.Q(it))
+		}
+	default:
+		return nil, false
+	}
+	return out, true
+}
+
+func paramOf(op *gen.Op, in, name string) *gen.Param {
+	for i := range op.Params {
+		if op.Params[i].In == in && op.Params[i].Name == name {
+			return &op.Params[i]
+		}
+	}
+	return nil
+}
+
+// onlyEmptyItems: a supplied list (>= 1 item) all of whose items are the empty text.
+func onlyEmptyItems(v []mon.Q) bool {
+	for _, it := range v {
+		if it != "" {
+			return false
+		}
+	}
+	return len(v) > 0
+}
+
+// eitherDefault: the call supplies, for an array parameter with a declared default, a list made of empty items only. C04's
+// statement ("values equal to the ones supplied") says nothing about defaults, and the description itself declares what an
+// empty parameter stands for (C03: "the declared default when the parameter is absent or empty"; C03 does not judge an empty
+// occurrence of a multi array either): the supplied list and the declared default are both accepted, nothing else is. Without
+// a declared default the supplied list is due ([""] is one item, the empty text, not the empty list).
+func eitherDefault(call *Call, op *gen.Op) bool {
+	for i := range op.Params {
+		p := &op.Params[i]
+		if _, ok := declaredDefault(p); !ok {
+			continue
+		}
+		switch p.In {
+		case "query":
+			if onlyEmptyItems(call.Query[p.Name]) {
+				return true
+			}
+		case "formData":
+			if onlyEmptyItems(call.Form[p.Name]) {
+				return true
+			}
+		}
+	}
+	return false
+}
+
+// emptyValueFeature names the empty values the call supplies for query and form parameters ("" = none): a scalar that is the
+// empty text, an array of one empty item, an array of several items all of them empty.
+func emptyValueFeature(call *Call, op *gen.Op) string {
+	var one, all, scalar, def bool
+	for i := range op.Params {
+		p := &op.Params[i]
+		var v []mon.Q
+		switch {
+		case p.In == "query":
+			v = call.Query[p.Name]
+		case p.In == "formData" && p.Type != "file":
+			v = call.Form[p.Name]
+		}
+		if !onlyEmptyItems(v) {
+			continue
+		}
+		switch {
+		case p.Type != "array":
+			scalar = true
+		case len(v) == 1:
+			one = true
+		default:
+			all = true
+		}
+		if _, ok := declaredDefault(p); ok {
+			def = true
+		}
+	}
+	var fs []string
+	if one {
+		fs = append(fs, "array-of-one-empty-item")
+	}
+	if all {
+		fs = append(fs, "array-of-empty-items")
+	}
+	if scalar {
+		fs = append(fs, "empty-value")
+	}
+	if def {
+		fs = append(fs, "default-declared")
+	}
+	return strings.Join(fs, "+")
+}
+
+// spellingFeature names how the description spells the media type: with upper-case letters, with a parameter ("" = the bare
+// type in lower case).
+func spellingFeature(what string, mts []string) string {
+	var upper, param bool
+	for _, mt := range mts {
+		bare := mt
+		if i := strings.IndexByte(mt, ';'); i >= 0 {
+			bare, param = mt[:i], true
+		}
+		if bare != strings.ToLower(bare) {
+			upper = true
+		}
+	}
+	switch {
+	case upper && param:
+		return what + "-spelled-with-upper-case-and-parameter"
+	case upper:
+		return what + "-spelled-with-upper-case"
+	case param:
+		return what + "-spelled-with-parameter"
+	}
+	return ""
+}
+
 // queryDiffers names how the bound value differs from the supplied list ("" = equal).
 func queryDiffers(bound interface{}, v []mon.Q) string {
 	switch g := bound.(type) {
@@ -995,7 +1170,7 @@ func queryDiffers(bound interface{}, v []mon.Q) string {
 			return "query"
 		}
 	case []string:
-		if strings.Join(g, "\x00") != strings.Join(mon.SQ(v), "\x00") {
+		if !sameItems(g, v) {
 			return "query-array"
 		}
 	case int64:
@@ -1029,6 +1204,10 @@ func compareValues(c *Case, call *Call, op *gen.Op, got *received) string {
 			if bad = queryDiffers(got.bound[p.Name], v); bad == "" {
 				break
 			}
+			if def, ok := declaredDefault(&p); ok && onlyEmptyItems(v) && queryDiffers(got.bound[p.Name], def) == "" {
+				bad = "" // an array made of empty items only, default declared: see eitherDefault
+				break
+			}
 		}
 		if bad != "" {
 			return bad
@@ -1041,7 +1220,7 @@ func compareValues(c *Case, call *Call, op *gen.Op, got *received) string {
 	}
 	for k, v := range call.HeaderArr {
 		g, ok := got.bound[k].([]string)
-		if !ok || strings.Join(g, "\x00") != strings.Join(mon.SQ(v), "\x00") {
+		if !ok || !sameItems(g, v) {
 			return "header-array"
 		}
 	}
@@ -1052,7 +1231,10 @@ func compareValues(c *Case, call *Call, op *gen.Op, got *received) string {
 				return "form"
 			}
 		case []string:
-			if strings.Join(g, "\x00") != strings.Join(mon.SQ(v), "\x00") {
+			if def, ok := declaredDefault(paramOf(op, "formData", k)); ok && onlyEmptyItems(v) && sameItems(g, def) {
+				continue // see eitherDefault
+			}
+			if !sameItems(g, v) {
 				return "form-array"
 			}
 		default:
@@ -1154,7 +1336,7 @@ func (c *Case) feature(call *Call) string {
 		fs = append(fs, "header")
 	}
 	if len(op.Consumes) > 0 {
-		switch op.Consumes[0] {
+		switch mediaTypeOf(op.Consumes[0]) {
 		case "multipart/form-data":
 			fs = append(fs, "multipart")
 		case "application/x-www-form-urlencoded":
@@ -1168,7 +1350,7 @@ func (c *Case) feature(call *Call) string {
 		case "text/plain":
 			fs = append(fs, "text-body")
 		}
-		if len(op.Consumes) > 1 && op.Consumes[1] == "multipart/form-data" {
+		if consumesIs(op, 1, "multipart/form-data") {
 			fs = append(fs, "or-multipart")
 		}
 		if op.Method == "DELETE" && call.Body != nil {
@@ -1181,7 +1363,7 @@ func (c *Case) feature(call *Call) string {
 	if call.File2 != "" {
 		fs = append(fs, "two-files")
 	}
-	if len(op.Consumes) > 0 && (op.Consumes[0] == "multipart/form-data" || len(op.Consumes) > 1 && op.Consumes[1] == "multipart/form-data") && call.File == "" && call.File2 == "" {
+	if (consumesIs(op, 0, "multipart/form-data") || consumesIs(op, 1, "multipart/form-data")) && call.File == "" && call.File2 == "" {
 		fs = append(fs, "no-file")
 	}
 	if nameNeedsQuoting(string(call.File)) {
@@ -1192,6 +1374,16 @@ func (c *Case) feature(call *Call) string {
 	}
 	if formDeclared(op) && len(call.Form) == 0 && call.File == "" && call.File2 == "" {
 		fs = append(fs, "no-form-value")
+	}
+	// round 4
+	if f := emptyValueFeature(call, op); f != "" {
+		fs = append(fs, f)
+	}
+	if f := spellingFeature("produces", op.Produces); f != "" {
+		fs = append(fs, f)
+	}
+	if f := spellingFeature("consumes", op.Consumes); f != "" {
+		fs = append(fs, f)
 	}
 	return strings.Join(fs, "+")
 }
@@ -1395,14 +1587,14 @@ const escapedLiteralTemplates = false
 
 var escapedLiterals = []string{"r 0", "café", "r|x", "r\"x", "日本"}
 
-// TRIAGE-PENDING: operations that consume text/plain with a body of schema {type: string}. On the unchanged tree the
+// (resolved, f886ac0; the switch stays on) operations that consume text/plain with a body of schema {type: string}. On the unchanged tree the
 // untyped binder gives every body parameter a map (or slice) target whatever its schema says, and the schema validation
 // then refuses the bound value ("body in body must be of type string: \"object\"", 422): the handler never runs
 // (alarm handler-did-not-run-status-422/text-body, replay /tmp/alarms/C04-text-body-string-schema.json). Set to true once
 // the lead has ruled on it; everything else for the shape (client side, consumer, oracle) is in place.
 const textBodyOps = true
 
-// TRIAGE-PENDING: a call to an operation that declares (optional) form fields which supplies none of them and no file. On the
+// (resolved, 73fc19b; the switch stays on) a call to an operation that declares (optional) form fields which supplies none of them and no file. On the
 // unchanged tree the client then sends no body and no Content-Type, and the server's formData binder answers 415
 // ("unsupported media type application/octet-stream"): the handler never runs (alarm
 // handler-did-not-run-status-415/urlencoded+no-form-value, replay /tmp/alarms/C04-no-form-value.json). While false, such a
@@ -1464,6 +1656,7 @@ func genDesc(r *rand.Rand) (gen.Desc, bool) {
 			switch r.Intn(5) {
 			case 0:
 				p = gen.Param{Name: name, In: "query", Type: "array", ItemsType: "string", CollectionFormat: "multi"}
+				arrayDefault(r, &p)
 			case 1:
 				p = gen.Param{Name: name, In: "query", Type: "integer", Format: "int64"}
 			}
@@ -1483,7 +1676,7 @@ func genDesc(r *rand.Rand) (gen.Desc, bool) {
 		}
 		kind := r.Intn(8)
 		if kind == 7 && !textBodyOps {
-			kind = 4 // TRIAGE-PENDING (see textBodyOps): an operation without body instead
+			kind = 4 // only while textBodyOps is off: an operation without body instead
 		}
 		switch kind {
 		case 7: // a text/plain body: a Go string goes through the client's text producer
@@ -1537,6 +1730,19 @@ func genDesc(r *rand.Rand) (gen.Desc, bool) {
 		default:
 			op.Produces = []string{"application/json"}
 		}
+		// round 4: the description spells a media type its own way; the client built from it lists the types as spelled
+		if r.Intn(5) == 0 {
+			op.Produces[0] = respell(r, op.Produces[0], true)
+		}
+		if spelledConsumes && len(op.Consumes) > 0 && r.Intn(8) == 0 {
+			form := consumesIs(&op, 0, "multipart/form-data") || consumesIs(&op, 0, "application/x-www-form-urlencoded")
+			op.Consumes[0] = respell(r, op.Consumes[0], !form)
+		}
+		for k := range op.Params {
+			if p := &op.Params[k]; p.In == "formData" && p.Type == "array" {
+				arrayDefault(r, p)
+			}
+		}
 		d.Ops = append(d.Ops, op)
 	}
 	return d, auth
@@ -1570,17 +1776,11 @@ func genCall(r *rand.Rand, d *gen.Desc, oi int) Call {
 			}
 			switch {
 			case p.Type == "array":
-				n := 1 + r.Intn(3)
-				var l []mon.Q
-				for i := 0; i < n; i++ {
-					l = append(l, mon.Q(tail(r, strings.ReplaceAll(hostile(r), "\x00", "0"), "v")))
-				}
-				if n >= 2 && r.Intn(4) == 0 {
-					l[r.Intn(n)] = "" // an empty item between/next to non-empty ones is a value like any other
-				}
-				c.Query[p.Name] = l
+				c.Query[p.Name] = multiItems(r, "v", true)
 			case p.Type == "integer":
 				c.Query[p.Name] = []mon.Q{mon.Q(intValues[r.Intn(len(intValues))])}
+			case r.Intn(16) == 0:
+				c.Query[p.Name] = []mon.Q{""} // the empty text is a value like any other
 			default:
 				c.Query[p.Name] = []mon.Q{mon.Q(tail(r, hostile(r), "q"))}
 			}
@@ -1627,25 +1827,20 @@ func genCall(r *rand.Rand, d *gen.Desc, oi int) Call {
 			if c.Form == nil {
 				c.Form = map[string][]mon.Q{}
 			}
-			if p.Type == "array" {
-				n := 1 + r.Intn(3)
-				var l []mon.Q
-				for i := 0; i < n; i++ {
-					l = append(l, mon.Q(tail(r, hostile(r), "f")))
-				}
-				if n >= 2 && r.Intn(4) == 0 {
-					l[r.Intn(n)] = ""
-				}
-				c.Form[p.Name] = l
-			} else {
+			switch {
+			case p.Type == "array":
+				c.Form[p.Name] = multiItems(r, "f", false)
+			case r.Intn(16) == 0:
+				c.Form[p.Name] = []mon.Q{""}
+			default:
 				c.Form[p.Name] = []mon.Q{mon.Q(tail(r, hostile(r), "f"))}
 			}
 		case "body":
-			if len(op.Consumes) > 0 && op.Consumes[0] == octetMime {
+			if consumesIs(op, 0, octetMime) {
 				c.RawLen = []int{1, 2, 511, 4096, 65536, 70001}[r.Intn(6)]
 				continue
 			}
-			if len(op.Consumes) > 0 && op.Consumes[0] == "text/plain" {
+			if consumesIs(op, 0, "text/plain") {
 				c.Text = mon.Q("t" + utf8Value(r))
 				continue
 			}
@@ -1653,7 +1848,7 @@ func genCall(r *rand.Rand, d *gen.Desc, oi int) Call {
 			c.Body = map[string]mon.Q{"s": mon.Q(utf8Value(r)), "t": mon.Q(utf8Value(r))}
 			if len(op.Consumes) > 1 {
 				c.BodyType = op.Consumes[r.Intn(len(op.Consumes))]
-				if c.BodyType == "application/x-yaml" {
+				if mediaTypeOf(c.BodyType) == "application/x-yaml" {
 					c.BodyAsReader = false
 					// YAML 1.2 scalars: keep to printable text so that the value is what was sent
 					c.Body = map[string]mon.Q{"s": mon.Q("y" + strings.Map(func(r rune) rune {
@@ -1667,7 +1862,7 @@ func genCall(r *rand.Rand, d *gen.Desc, oi int) Call {
 		}
 	}
 	if !emptyFormCalls && formDeclared(op) && len(c.Form) == 0 && c.File == "" && c.File2 == "" {
-		// TRIAGE-PENDING (see emptyFormCalls)
+		// only while emptyFormCalls is off
 		for _, p := range op.Params {
 			if p.In == "formData" && p.Type != "file" {
 				c.Form = map[string][]mon.Q{p.Name: {mon.Q(hostile(r) + "f")}}
@@ -1682,6 +1877,83 @@ func genCall(r *rand.Rand, d *gen.Desc, oi int) Call {
 	}
 	genAnswer(r, op, &c)
 	return c
+}
+
+// multiItems is a value list for a multi array: 1..3 items. In 1 list in 4 of those with >= 2 items one item is empty (an empty
+// item between/next to non-empty ones is a value like any other); 1 list in 8 is made of empty items only, whatever its length:
+// [""] is the list of one item, the empty text, ["", ""] the list of two.
+func multiItems(r *rand.Rand, letter string, noNUL bool) []mon.Q {
+	n := 1 + r.Intn(3)
+	var l []mon.Q
+	for i := 0; i < n; i++ {
+		v := hostile(r)
+		if noNUL {
+			v = strings.ReplaceAll(v, "\x00", "0")
+		}
+		l = append(l, mon.Q(tail(r, v, letter)))
+	}
+	switch k := r.Intn(8); {
+	case k < 2 && n >= 2:
+		l[r.Intn(n)] = ""
+	case k == 2:
+		for i := range l {
+			l[i] = ""
+		}
+	}
+	return l
+}
+
+// arrayDefault: 1 array parameter in 4 declares a default (what arrives when the caller leaves the parameter out).
+func arrayDefault(r *rand.Rand, p *gen.Param) {
+	if r.Intn(4) == 0 {
+		p.Default = []interface{}{"dflt"} // the form a replay file gives it back in
+		if r.Intn(2) == 0 {
+			p.Default = []interface{}{"d 1", ""}
+		}
+	}
+}
+
+// (round 4; ruled a defect and repaired in the library by bbaab0a, pinned): descriptions whose CONSUMES entries are spelled with upper-case letters or with a parameter
+// ("Application/JSON", "application/json; charset=utf-8"). On the unchanged tree the client transport picks its producer by
+// the exact text of the first consumes entry (client/runtime.go createHttpRequest: r.Producers[cmt]; client/request.go buildHTTP:
+// producers[mediaType], isMultipart) and refuses the call before sending ("none of producers ... registered"): no request is
+// produced and the handler never runs, although the server built from the same description admits the type however it is spelled
+// (alarm submit-error/...+consumes-spelled-with-upper-case|-with-parameter; replays /tmp/alarms4/C04-consumes-spelled-with-*.json,
+// drafted repair /tmp/alarms4/C04-consumes-spelling.fix.diff, with which the shape agrees end to end). Set to true once the lead
+// has ruled; everything for the shape (generator, features, oracle) is in place behind the switch.
+const spelledConsumes = true
+
+var mediaTypeParams = []string{"; charset=utf-8", " ; charset=utf-8", ";charset=UTF-8", "; Charset=utf-8"}
+
+// respell spells the media type the way a description may: letters in upper case (all, the first of each token, the subtype),
+// a parameter after it, or both. Media types are case-insensitive and may carry parameters (RFC 7231 section 3.1.1.1).
+func respell(r *rand.Rand, mt string, params bool) string {
+	k := r.Intn(3) // 0: letters, 1: parameter, 2: both
+	if !params {
+		k = 0
+	}
+	if k != 1 {
+		switch r.Intn(3) {
+		case 0:
+			mt = strings.ToUpper(mt)
+		case 1: // Text/Plain, Application/Octet-Stream
+			b := []byte(mt)
+			for i := range b {
+				if (i == 0 || b[i-1] == '/' || b[i-1] == '-') && b[i] >= 'a' && b[i] <= 'z' {
+					b[i] -= 'a' - 'A'
+				}
+			}
+			mt = string(b)
+		default: // application/JSON
+			if i := strings.IndexByte(mt, '/'); i >= 0 {
+				mt = mt[:i+1] + strings.ToUpper(mt[i+1:])
+			}
+		}
+	}
+	if k != 0 {
+		mt += mediaTypeParams[r.Intn(len(mediaTypeParams))]
+	}
+	return mt
 }
 
 var intValues = []string{"0", "-1", "9223372036854775807", "-9223372036854775808", "42"}
@@ -1704,12 +1976,12 @@ func pinValue(r *rand.Rand, p *gen.Param) []mon.Q {
 // genPreSend turns the call into one that supplies something which cannot be sent (when the operation has a place for it).
 func genPreSend(r *rand.Rand, op *gen.Op, c *Call) {
 	switch {
-	case c.Body != nil && len(op.Consumes) > 0 && op.Consumes[0] == "application/json":
+	case c.Body != nil && consumesIs(op, 0, "application/json"):
 		c.PreSend = []string{"unproducible-body", "no-producer"}[r.Intn(2)]
 		c.BodyType, c.BodyAsReader = "", false
 	case c.RawLen > 0:
 		c.PreSend, c.Signer = "body-close-error", true // the auth writer asks for the body: the stream is read and closed before sending
-	case len(op.Consumes) > 0 && op.Consumes[0] == "multipart/form-data":
+	case consumesIs(op, 0, "multipart/form-data"):
 		c.PreSend = "directory-file"
 		c.File, c.FileLen, c.FileSkip = "", 0, 0
 	}
